@@ -91,7 +91,7 @@ class TxHook:
 
 # None (usually) or: abort the call at its n-th index write transaction; afterwards keep or reopen the handle
 _IDX_ABORT = st.one_of(
-    st.none(), st.none(), st.none(),
+    st.none(), st.none(),
     st.fixed_dictionaries({"at": st.sampled_from([1, 2, 2, 2, 3, 4, 4]),
                            "how": st.sampled_from(["kill", "kill", "timeout"]),
                            "reopen": st.booleans()}),
@@ -133,7 +133,9 @@ _WEIGHTS = (["push"] * 13 + ["fetch"] * 6 + ["status"] * 10 + ["delete_remote"] 
 @st.composite
 def _step(draw):
     op = dict(draw(_OPS[draw(st.sampled_from(_WEIGHTS))]))
-    op["remote"] = draw(st.sampled_from([0, 0, 1, 1, 2]))  # taken modulo the number of remotes
+    # -1 = the remote addressed by the previous step (multi-step stories about one remote stay likely);
+    # otherwise taken modulo the number of remotes
+    op["remote"] = draw(st.sampled_from([-1, -1, -1, -1, 0, 1, 1, 2]))
     return op
 
 
@@ -343,7 +345,8 @@ class IndexMachine(TraceMachine):
         args = {k: v for k, v in op.items() if k not in ("op", "remote")}
         self.op = op["op"]
         if self.rems:
-            self.cur = op.get("remote", 0) % len(self.rems)
+            r = op.get("remote", 0)
+            self.cur = self.cur if r < 0 else r % len(self.rems)
             self.touched.add(self.cur)
             if len(self.touched) >= 2:
                 self.labels.add("steps-on->=2-remotes")
